@@ -304,6 +304,19 @@ func Run(o lib.Opts) {
 		}
 		seen.Add(s.Lua)
 	}
+	// read-only functions behave exactly as in a normal run: the same requests in the same order, the layout untouched
+	for _, s := range api {
+		if isMut(s) || strings.Contains(s.Lua, "exportTar") {
+			continue
+		}
+		dryReqs, dryDiff, _ := e.run(Case{Kind: "readonly", Dry: true, Scripts: []Script{s}}, res)
+		norReqs, norDiff, _ := e.run(Case{Kind: "readonly", Scripts: []Script{s}}, res)
+		res.Evaluations += 2
+		if strings.Join(dryReqs, "\n") != strings.Join(norReqs, "\n") || len(dryDiff) != len(norDiff) {
+			res.Fail("read-only-differs-under-dry-run script="+s.Name, fmt.Sprintf("%s: --dry-run sent %v, a normal run sent %v", s.Name, dryReqs, norReqs), Case{Kind: "readonly", Dry: true, Scripts: []Script{s}})
+		}
+		res.Count("readonly:" + s.Name)
+	}
 	// non-vacuity: without --dry-run the mutating functions do mutate
 	mutSeen := 0
 	for _, s := range api {
